@@ -237,7 +237,25 @@ def r3_no_transformer_downstream(w):
     return r
 
 
-RULES = [r1_literal_leaves, r2_raw_reconstruction, r3_no_transformer_downstream]
+def r4_literal_after_hash_keeps_parens(w):
+    """= the paren-removal clauses of C01.R4: a word-like literal (number, bool, none, auto) whose redundant parentheses are removed directly after a
+    `#` fuses with the text that follows it (`$#(2)x^2$` -> `#2x^2`: the number becomes another literal, seed C10/4B; F15)"""
+    from rules import c01
+    rs = c01.r4_order_and_disambiguation(w)
+    r = RuleResult('C10.R4', 'the parentheses of a word-like literal directly after `#` are kept (the literal would fuse with the following text)', floor=8)
+    for inst in rs.instances:
+        c = inst.get('construct', {})
+        if 'can_omit' in str(c) or 'embedded' in str(c) or 'after_hash' in str(c) or 'hash' in str(c).lower():
+            r.instances.append(inst)
+    for f in rs.findings:
+        if '|can_omit|' in f.key or 'hash' in f.key:
+            f.rule = 'C10.R4'
+            f.key = f.key.replace('C01.R4|', 'C10.R4|', 1)
+            r.findings.append(f)
+    return r
+
+
+RULES = [r1_literal_leaves, r2_raw_reconstruction, r3_no_transformer_downstream, r4_literal_after_hash_keeps_parens]
 for _f in RULES:
     _f.needs = ('core',)
 MATRIX_RULES = [r1_literal_leaves, r3_no_transformer_downstream]
